@@ -19,8 +19,26 @@ CLAIM = dict(
           "exhaustively for several roots, random and ragged sizes, whole boards, board counts) and the Lean "
           "specification predicates evaluated on the implementation's outputs."),
     design="3/C19",
-    note=("int(sqrt(k)) is modelled by the integer square root (equal for k < 2^52). Widths/heights <= 0 and negative "
-          "board counts are modelled (ZeroDivisionError / empty list / ValueError) but outside the property."),
+    note=("int(sqrt(k)) is modelled by the integer square root (equal for k < 2^52 and for the exact squares generated "
+          "above it; board counts beyond what a double holds exactly - e.g. 3a(a-1) with a > 2^54, where the source's "
+          "float sqrt starts the divisor search in the wrong place - are NOT generated). Widths/heights <= 0 and negative "
+          "board counts are modelled (ZeroDivisionError / empty list / ValueError) but outside the property. "
+          "Hardening checklist: (1) kinds - every integer argument also as bool (0/1) and as a member of the IntEnum "
+          "Links (0..5), link as Links / int / bool, big ints around 2^31..2^100 for coordinates, roots, w, h and board "
+          "counts; numpy ints are not generated (rig itself passes Python ints: struct-unpacked sizes and root_chip); "
+          "no parameter is a collection, byte string, hashable identifier or rig object; None is not a legal value of "
+          "root_x/root_y. (2) optional parameters: root_x, root_y of all four spinn5_* functions take non-default "
+          "values, are passed positionally, by keyword, all-keyword, and are omitted (one or both) when 0; "
+          "standard_system_dimensions has none. (3) scale: 1xN, Nx1, 2xN, Nx12 machines with N in the thousands, "
+          "65,537 and 257 wide/high, a 360^2 (600^2) machine, 3*257 / 3*65,537 boards; nothing is recursive. "
+          "(4) every call runs inside a history that starts with a fresh load of rig.links and rig.geometry; repeated "
+          "calls, twins in both orders; there are no objects/classes to alternate other than the generators. "
+          "(5) arguments are ints and results are tuples, so the caller has nothing to edit in place; every result is "
+          "kept and re-checked at the end of its history; the generators of spinn5_eth_coords are consumed lazily, "
+          "two alternately, between other calls, one abandoned. (6) nothing in scope talks to anything that can fail; "
+          "calls that raise (w = 0, board count not a multiple of 3) are followed by normal calls in histories. "
+          "(7) there is no environment / configuration. (8) every call under common.cpu_limit; all model functions are "
+          "total, so not returning on an in-domain input is the finding did-not-return."),
     technique="Lean 4 theorems over a hand-written model + translator for the tables + differential correspondence + Lean spec as oracle")
 
 
@@ -34,11 +52,21 @@ THEOREMS = ["table_shape", "table_cells", "board_has_48_chips", "links_documente
             "std_dims_spec", "std_dims_squarest", "std_dims_errors", "spec_std_dims_fast_iff"]
 THEOREMS += ['gen_chip_coord', 'gen_local_eth_coord', 'gen_fpga_link']   # translator tie: generated function bodies = model (Props/C19Gen.lean)
 
-RULE = ("(a) every cell of the 12x12 table x 6 links (+ invalid link numbers) for root (0,0) and random roots on 12x12 "
-        "and larger machines; (b) random (w, h, root, x, y) with w,h multiples of 12, ragged, 1 and a few 0, x,y inside, "
-        "on the border, outside and negative; (c) eth_coords for random/ragged/zero sizes and arbitrary (also negative, "
-        "large) roots; (d) whole boards: 48 chips x 6 links of a random board of a random machine; (e) board counts "
-        "0..N and random large ones incl. non-multiples of 3 and negatives.  Non-trivial: root not a multiple of 12 or a "
+RULE = ("Every call is compared with the Lean model and judged by the Lean predicate of its function on the "
+        "implementation's own output; calls run in histories (fresh load of rig.links/rig.geometry, then up to 32 "
+        "consecutive calls; kept results re-checked at the end).  Streams: (a) corpus; every cell of the 12x12 table x "
+        "6 links (+ invalid link numbers) for root (0,0) and random roots on 12x12 and larger machines; (b) random "
+        "(w, h, root, x, y) with w,h multiples of 12, ragged, 1 and a few 0, x,y inside, on the border, outside and "
+        "negative; (c) eth_coords for random/ragged/zero sizes and arbitrary (also negative, large) roots; (d) whole "
+        "boards: 48 chips x 6 links of a random board of a random machine; (e) board counts 0..N and random large ones "
+        "incl. non-multiples of 3 and negatives; half of (b), (c), (e) 'dressed': arguments as bool / Links members, "
+        "roots by keyword / all by keyword / omitted when 0 (tags kind:*, conv:*); (f) big integers 2^31..2^100 "
+        "(tag bigint; board counts judged by SpecStdDimsFast = SpecStdDims, theorem spec_std_dims_fast_iff); (g) scale: "
+        "1xN, Nx1, 2xN, 65,537- and 257-wide machines, 3*65,537 boards; (h) histories: same call three times, twins "
+        "(one aspect changed, or the same chip through another function) in both orders, a raising call followed by "
+        "normal ones, generators of spinn5_eth_coords opened / advanced / finished alternately between other calls and "
+        "one abandoned (tags history, eth_open, eth_pull, eth_finish).  A finding is reported with the single call when "
+        "that fails on its own, else with the history up to it.  Non-trivial: root not a multiple of 12 or a "
         "wrap-around (local/chip), ragged size or root != 0 (eth_coords), a defined FPGA link, a composite number of "
         "triads (dimensions); distinct = distinct canonical JSON of the input")
 
@@ -52,8 +80,8 @@ PARAMS = {"local_eth": (("x", "x"), ("y", "y"), ("w", "w"), ("h", "h"), ("rx", "
           "fpga_link": (("x", "x"), ("y", "y"), ("link", "link"), ("rx", "root_x"), ("ry", "root_y")),
           "eth_coords": (("width", "width"), ("height", "height"), ("rx", "root_x"), ("ry", "root_y")),
           "std_dims": (("n", "num_boards"),)}
-META = ("fn", "enum", "kinds", "conv", "id", "k")     # fields of a case that are not arguments
-_HANGS = [0]
+META = ("fn", "enum", "kinds", "conv", "id", "k", "slow")     # fields of a case that are not arguments
+_HANGS = {}        # function -> number of calls that did not return in this run
 
 
 def _exc(e):
@@ -178,9 +206,11 @@ def run_history(calls):
     outs, tags, kept, state = [], [], [], {}
     for i, c in enumerate(calls):
         try:
-            # a call takes microseconds (the scale cases and the divisor search of huge board counts up to a
-            # second): 10 s of CPU time (1 s once that has happened 6 times) means it did not return
-            with common.cpu_limit(10 if _HANGS[0] < 6 else 1):
+            # a call takes microseconds (the cases marked slow - scale, divisor search of huge board counts -
+            # up to a few tenths of a second): 5 s of CPU time means it did not return; once a function has
+            # done that 6 times the limit is 1 s, after 10 times 0.1 s for its calls not marked slow
+            nh = _HANGS.get(c["fn"], 0)
+            with common.cpu_limit(5 if nh < 6 else 1 if nh < 10 or c.get("slow") else 0.1):
                 raw = impl_raw(c, state, tags)
             if c["fn"] in ("eth_open", "eth_pull"):
                 outs.append({"ok": None})
@@ -188,7 +218,7 @@ def run_history(calls):
                 outs.append({"ok": _canon(c["fn"], raw)})
                 kept.append((i, raw))
         except common.ImplHang as e:
-            _HANGS[0] += 1
+            _HANGS[c["fn"]] = _HANGS.get(c["fn"], 0) + 1
             outs.append({"err": "DidNotReturn", "where": str(e)})
         except AssertionError:
             raise
@@ -437,6 +467,8 @@ def finish(ctx):
             best[key] = (what, case)
     out = []
     for key, (what, case) in sorted(best.items()):
+        if case.get("fn") == "history" and len(case["calls"]) == 1:
+            case = case["calls"][0]
         if case.get("fn") == "history" and len(case["calls"]) > 1 and key != "result-changed-after-return":
             rec = _Rec(ctx)
             eval_histories(rec, [[case["calls"][-1]]])
@@ -638,6 +670,9 @@ def bigint_cases(ctx, n):
     for _ in range(max(n // 4, 4)):
         a = rng.randrange(2 ** 15, 2 ** 26)
         cases.append({"fn": "std_dims", "n": 3 * a * (a + rng.randrange(0, 40))})   # < 2**53, nearly square
+    for c in cases:
+        if c["fn"] == "std_dims":
+            c["slow"] = True
     return cases
 
 
@@ -649,12 +684,12 @@ def scale_cases(ctx):
     for width, height in [(1, N), (N, 1), (2, N), (N, 12), (65537, 1), (1, 65537), (257, 257),
                           (ctx.scale(360, 600), ctx.scale(360, 600))]:
         rx, ry = rnd_root(rng)
-        cases.append({"fn": "eth_coords", "width": width, "height": height, "rx": rx, "ry": ry})
+        cases.append({"fn": "eth_coords", "width": width, "height": height, "rx": rx, "ry": ry, "slow": True})
         x, y = rng.randrange(width), rng.randrange(height)
         cases.append({"fn": "local_eth", "x": x, "y": y, "w": width, "h": height, "rx": rx, "ry": ry})
         cases.append({"fn": "fpga_link", "x": x, "y": y, "link": rng.randrange(6), "rx": rx, "ry": ry})
     for n in (3 * 257, 3 * 65537, 3 * 65536, 3 * 65535, 3 * 1000003):
-        cases.append({"fn": "std_dims", "n": n})
+        cases.append({"fn": "std_dims", "n": n, "slow": True})
     return cases
 
 
